@@ -117,6 +117,45 @@ def extract(table, cfg_mode, expanded, enc, blocked, nrows, maxlen, via_csv=Fals
     return h
 
 
+def ascii_reader():
+    """reading with the strict ascii codec a file in which only rows of *other* tables (and the filler behind the configured columns of
+    the requested rows) contain bytes outside ASCII: the reader looks only at the key fields and the configured columns"""
+    def h():
+        m = M().mciipm
+        from . import packaged
+        table = 'IP0075T1'
+        layout = packaged.param_tables()[table]
+        width = max(p['end'] for p in layout.values()) - 8
+        expanded = choose('expanded', [False, True])
+        off = 0 if expanded else -8
+        blocked = choose('blocked', [False, True])
+        where = choose('non_ascii_in', ['foreign-row', 'filler-behind-columns', 'nowhere'])
+        rows = []
+        for i, t in enumerate([table, 'IPOTHER1', table]):
+            ts = '%07d' % (2100000 + i) if not expanded else '%010d' % (2100000000 + i)
+            key = ts + 'A' + (t if expanded else SUBID[t])
+            body = ''.join(chr(65 + (j + 3 * i) % 26) for j in range(width + 8 - len(key) + (0 if not expanded else 8)))
+            row = (key + body).encode('ascii')
+            if t != table and where == 'foreign-row':
+                row = row[:30] + b'caf\xe9 \xfc\xdf' + row[37:]
+            if t == table and where == 'filler-behind-columns':
+                row = row + b' \xe9\xe9 filler'
+            rows.append((row, ts, t))
+        rp = {'kind': 'ascii', 'args': {'expanded': expanded, 'blocked': blocked, 'where': where}}
+        core.set_fallback(rp, 'C18/concretised')
+        f = build_file(m, [r[0] for r in rows], 'ascii', blocked)
+        with guard('IpmParamReader(encoding=ascii)', 'C18/exception', rp):
+            got = list(m.IpmParamReader(f, table, encoding='ascii', expanded=expanded, blocked=blocked))
+        want = [r for r in rows if r[2] == table]
+        require(len(got) == len(want), 'returned %d rows, the table has %d' % (len(got), len(want)), key='C18/rows', replay=rp)
+        for d, (row, ts, t) in zip(got, want):
+            require(d.get('effective_timestamp') == ts, 'effective timestamp', key='C18/common', replay=rp)
+            for col, pos in layout.items():
+                require(d.get(col) == row[pos['start'] + off:pos['end'] + off].decode('ascii'), 'column %s' % col, key='C18/column', replay=rp)
+        return {'sample': rp['args'], 'replay': rp}
+    return h
+
+
 def refusals():
     def h():
         m = M().mciipm
@@ -169,5 +208,7 @@ def obligations(tier):
                   'through mci_ipm_param_to_csv with the row-level csv stub', _funcs))
     obs.append(Ob('csv/generated/expanded', extract('IPGEN0T1', 'generated', True, 'latin_1', False, 2, 100, via_csv=True), 600,
                   'through mci_ipm_param_to_csv, generated layout', _funcs))
+    obs.append(Ob('ascii-codec/non-ascii-outside-the-columns', ascii_reader(), 120,
+                  'encoding=ascii (strict codec), concrete rows: bytes >= 0x80 only in a row of another table / behind the configured columns', _funcs))
     obs.append(Ob('refusals', refusals(), 60, 'missing trailer / unconfigured table', _funcs))
     return obs
